@@ -183,22 +183,23 @@ def d4(chk, prog, ploidies):
     tb2.done("clonal call does not recover n from a log2 generated by the mixing model")
     # (c) without purity: nearest integer to r*2^v
     tb3 = Table(chk, "cn-integer-nonneg", "do_call(clonal, no purity): cn == round(r*2^v)", fi.loc(), fi.qn + "::cn (pure)")
-    for P, hap, style, pur in itertools.product(ploidies, [False, True], ["", "chr"], [None, 1]):
+    for P, hap, style, pur, layout in itertools.product(ploidies, [False, True], ["", "chr"], [None, 1], ["classes", "interleaved rows"]):
         W.reset()
         it = Interp(prog, model)
-        cl = ["auto", "x", "y"]
-        rows = [{"chromosome": chrom(c, style), "start": Term.sym("s"), "end": Term.sym("e"), "gene": "g", "log2": Term.sym(f"v_{c}")} for c in cl]
-        g = make_ga("CopyNumArray", rows, {"_classes": cl, "sample_id": "S"}, index="any")
+        # second layout: literally these five rows, a chromosome's rows not adjacent (tables sorted by something else, concatenated batches)
+        cl = ["auto", "x", "y"] if layout == "classes" else ["auto", "x", "auto", "y", "x"]
+        rows = [{"chromosome": chrom(c, style), "start": Term.sym("s"), "end": Term.sym("e"), "gene": "g", "log2": Term.sym(f"v_{c}_{i}")} for i, c in enumerate(cl)]
+        g = make_ga("CopyNumArray", rows, {"_classes": cl, "sample_id": "S"}, index="any", exact=layout != "classes")
         pv = pur
-        out = tb3.guard(lambda: it.run(fi.qn, [g, None, "clonal", P, pv, hap, False, None, None]), f"P={P}")
+        out = tb3.guard(lambda: it.run(fi.qn, [g, None, "clonal", P, pv, hap, False, None, None]), f"P={P} {layout}")
         if out is None:
             continue
         for i, c in enumerate(cl):
             r = ref_exp_oracle(c, P, hap, True, None)[0]
-            want = f_round(t_mul(T(r), f_exp2(Term.sym(f"v_{c}"))))
+            want = f_round(t_mul(T(r), f_exp2(Term.sym(f"v_{c}_{i}"))))
             got = out.data.cols["cn"].v[i]
             t = T(got)
-            tb3.cell(same(got, want) and t.integer and t.lo >= 0, dict(ploidy=P, hap=hap, naming=style or "bare", purity=pur, cls=c, cn=repr(got), want=repr(want)))
+            tb3.cell(same(got, want) and t.integer and t.lo >= 0, dict(ploidy=P, hap=hap, naming=style or "bare", purity=pur, layout=layout, row=i, cls=c, cn=repr(got), want=repr(want)))
     tb3.done("pure clonal call is not the nearest integer to r*2^log2")
 
 
@@ -226,6 +227,16 @@ def run(chk):
 
 _C = "cnvlib/call.py"
 MUTANTS = [
+    dict(name="seeded C01d: absolute_pure converts by chromosome into contiguous slices", file="cnvlib/call.py", old="""    for i, row in enumerate(cnarr):
+        ref_copies = _reference_copies_pure(row.chromosome, ploidy, is_haploid_x_reference)
+        absolutes[i] = _log2_ratio_to_absolute_pure(row.log2, ref_copies)
+""", new="""    i = 0
+    for chrom, subarr in cnarr.by_chromosome():
+        ref_copies = _reference_copies_pure(chrom, ploidy, is_haploid_x_reference)
+        j = i + len(subarr)
+        absolutes[i:j] = _log2_ratio_to_absolute_pure(subarr["log2"].values, ref_copies)
+        i = j
+"""),
     dict(name="swap female/male expect branch", file=_C, old="        ploidy if is_sample_female else ploidy // 2\n", new="        ploidy // 2 if is_sample_female else ploidy\n"),
     dict(name="Y reference ploidy instead of ploidy//2", file=_C, old='df.loc[cnarr.chr_y_filter(diploid_parx_genome), "reference"] = ploidy // 2', new='df.loc[cnarr.chr_y_filter(diploid_parx_genome), "reference"] = ploidy'),
     dict(name="flip sign in purity formula", file=_C, old="(ref_copies * 2**log2_ratio - expect_copies * (1 - purity)) / purity", new="(ref_copies * 2**log2_ratio + expect_copies * (1 - purity)) / purity"),
